@@ -67,10 +67,15 @@ EUR_RATES = ['1.25', '0.8', '2.5', '0.4', '0.5', '2']
 HOOL_PRICES = ['22.00', '30.00', '24.50', '18.00']
 
 
-def price_schedule(seed=0):
-    """Fixed price directives (dates interleave with DATES; one before every transaction date)."""
+def price_schedule(seed=0, variant=0):
+    """Fixed price directives (dates interleave with DATES; one before every transaction date).
+    variant 1: the same directives with every rate doubled (reciprocals still terminate) -- a second
+    price map for the same (pair, date) keys, so that two ledgers of one process disagree on a rate."""
     r = EUR_RATES[seed % len(EUR_RATES):] + EUR_RATES[:seed % len(EUR_RATES)]
     h = HOOL_PRICES[seed % len(HOOL_PRICES):] + HOOL_PRICES[:seed % len(HOOL_PRICES)]
+    if variant:
+        import decimal
+        return [(d, b, str(decimal.Decimal(x) * 2), q) for d, b, x, q in price_schedule(seed, 0)]
     return [
         (datetime.date(2020, 1, 12), 'EUR', r[0], 'USD'),
         (datetime.date(2020, 1, 12), 'HOOL', h[0], 'USD'),
@@ -85,9 +90,9 @@ def price_schedule(seed=0):
 FUNC_DATES = [datetime.date(2020, 1, 5), datetime.date(2020, 1, 20), datetime.date(2020, 2, 15), datetime.date(2020, 3, 20)]
 
 
-def text(seq, seed=0):
+def text(seq, seed=0, variant=0):
     lines = [PREAMBLE]
-    for pd, base, rate, quote in price_schedule(seed):
+    for pd, base, rate, quote in price_schedule(seed, variant):
         lines.append(f'{pd} price {base} {rate} {quote}\n')
     for i, name in enumerate(seq):
         lines.append(f'{DATES[i]} * "t{i}-{name}"\n')
@@ -97,9 +102,9 @@ def text(seq, seed=0):
 
 
 @functools.lru_cache(maxsize=None)
-def load(seq, seed=0):
+def load(seq, seed=0, variant=0):
     """-> (entries, errors, options); entries is a list, errors must be checked by the caller."""
-    return loader.load_string(text(seq, seed))
+    return loader.load_string(text(seq, seed, variant))
 
 
 def sequences(n):
